@@ -97,7 +97,9 @@ fn operand_load(
         } => {
             let reg = get_register(*reg)?;
             let reg_value = reg.get();
-            assert_eq!(reg.bits(), 128);
+            if reg.bits() != 128 {
+                return Err(unsupported());
+            }
 
             let (shift, width) = arr_spec_offset_width(arrspec);
 
@@ -599,7 +601,7 @@ pub(super) fn add(
         let rhs = operand_load(block, &instruction.operands()[2], bits)?;
 
         // perform operation
-        let src = il::Expression::add(lhs, rhs).unwrap();
+        let src = il::Expression::add(lhs, rhs).map_err(|_| unsupported())?;
 
         // store result
         operand_store(block, &instruction.operands()[0], src)?;
@@ -1369,7 +1371,7 @@ pub(super) fn sub(
         let rhs = operand_load(block, &instruction.operands()[2], bits)?;
 
         // perform operation
-        let src = il::Expression::sub(lhs, rhs).unwrap();
+        let src = il::Expression::sub(lhs, rhs).map_err(|_| unsupported())?;
 
         // store result
         operand_store(block, &instruction.operands()[0], src)?;
